@@ -12,6 +12,7 @@ MODELS = {
     "MC_Decode": {"tla": "MC_Decode.tla", "cfg": "MC_Decode.cfg", "cfg_thorough": "MC_Decode_full.cfg"},
     "MC_Layout": {"tla": "MC_Layout.tla", "cfg": "MC_Layout.cfg", "cfg_thorough": "MC_Layout_full.cfg"},
     "MC_Link": {"tla": "MC_Link.tla", "cfg": "MC_Link.cfg", "cfg_thorough": "MC_Link_two.cfg"},
+    "MC_LinkReassign": {"tla": "MC_Link.tla", "cfg": "MC_Link_reassign_nodup.cfg"},
     "MC_Endpoint": {"tla": "MC_Endpoint.tla", "cfg": "MC_Endpoint.cfg", "cfg_thorough": "MC_Endpoint_two.cfg"},
 }
 
@@ -76,7 +77,7 @@ P("C12", "model_checking",
   models=["MC_Endpoint", "MC_Link"], gen_quick=["GenEndpoint", "GenEndpoint3", "GenEndpointSim", "GenLink"], gen_thorough=["GenEndpoint", "GenEndpoint3Full", "GenEndpointSim", "GenLinkTwo"], families=["bus", "forge", "vendor_enum", "identity", "history"])
 P("C13", "model_checking",
   "non-trivial = a processed Set/Get Endpoint ID packet (accepted, rejected or corrupted) or a direct accessor call; every event with a context is an evaluation of 'nothing else changes it'; distinct = distinct (context, input)",
-  models=["MC_Endpoint", "MC_Link"], gen_quick=["GenAlphabet", "GenEndpoint", "GenEndpoint3", "GenEndpointSim", "GenLink"], gen_thorough=["GenAlphabet", "GenEndpoint", "GenEndpoint3Full", "GenEndpointSim", "GenLinkTwo"], families=["bus", "tour", "history", "forge", "corrupt"])
+  models=["MC_Endpoint", "MC_Link", "MC_LinkReassign"], gen_quick=["GenAlphabet", "GenEndpoint", "GenEndpoint3", "GenEndpointSim", "GenLink"], gen_thorough=["GenAlphabet", "GenEndpoint", "GenEndpoint3Full", "GenEndpointSim", "GenLinkTwo"], families=["bus", "tour", "history", "forge", "corrupt"])
 P("C14", "model_checking",
   "non-trivial = process_packet on an accepted Get Vendor Defined Message Support request with selector < n; distinct = distinct (configuration, request)",
   models=["MC_Endpoint", "MC_Link"], gen_quick=["GenEndpoint", "GenEndpoint3", "GenEndpointSim", "GenLink"], gen_thorough=["GenEndpoint", "GenEndpoint3Full", "GenEndpointSim", "GenLinkTwo"], families=["bus", "vendor_enum", "forge"])
